@@ -143,14 +143,28 @@ theorem addEmpty_mem (srcs : List Nat) (ns : List FileId) : ∀ (F : FileId → 
       · rw [addEmpty_not_mem _ _ _ _ h]; simp
       · exact absurd hg h
 
+theorem addNew_nil (cells : List Cell) (srcs : List Nat) (F : FileId → File) :
+    addNew F cells srcs [] = F := rfl
+
+theorem getLast?_split {ns : List FileId} {n : FileId} (h : ns.getLast? = some n) :
+    ns = ns.dropLast ++ [n] := by
+  have hne : ns ≠ [] := by intro e; rw [e] at h; cases h
+  have := List.dropLast_concat_getLast hne
+  rw [List.getLast?_eq_some_getLast hne] at h
+  simp only [Option.some.injEq] at h
+  rw [h] at this; exact this.symm
+
 theorem addNew_not_mem (cells : List Cell) (srcs : List Nat) (ns : List FileId)
     (F : FileId → File) (g : FileId) (hg : g ∉ ns) : addNew F cells srcs ns g = F g := by
-  cases ns with
-  | nil => rfl
-  | cons n ns =>
-    simp only [List.mem_cons, not_or] at hg
-    simp only [addNew]
-    rw [addEmpty_not_mem _ _ _ _ hg.2, upd_other _ _ _ _ hg.1]
+  unfold addNew
+  cases h : ns.getLast? with
+  | none => rfl
+  | some n =>
+    have hs := getLast?_split h
+    have h1 : g ≠ n := fun e => hg (by rw [hs, e]; simp)
+    have h2 : g ∉ ns.dropLast := fun hm => hg (by rw [hs]; simp [hm])
+    simp only []
+    rw [upd_other _ _ _ _ h1, addEmpty_not_mem _ _ _ _ h2]
 
 /-- a new file is present, unreferenced, not unlinked, and carries the sources. -/
 theorem addNew_mem (cells : List Cell) (srcs : List Nat) (ns : List FileId)
@@ -159,31 +173,47 @@ theorem addNew_mem (cells : List Cell) (srcs : List Nat) (ns : List FileId)
     (addNew F cells srcs ns g).unlinked = false ∧ (addNew F cells srcs ns g).pending = false ∧
     (addNew F cells srcs ns g).srcs = srcs ∧
     (∀ c ∈ (addNew F cells srcs ns g).cells, c ∈ cells) := by
-  cases ns with
-  | nil => simp at hg
-  | cons n ns =>
-    simp only [addNew]
-    by_cases h : g ∈ ns
-    · rw [addEmpty_mem _ _ _ _ h]; simp [newFile]
-    · simp only [List.mem_cons] at hg
-      rcases hg with rfl | hg
-      · rw [addEmpty_not_mem _ _ _ _ h]; simp [newFile]
-      · exact absurd hg h
+  unfold addNew
+  cases h : ns.getLast? with
+  | none =>
+    have : ns = [] := by simpa using h
+    rw [this] at hg; simp at hg
+  | some n =>
+    have hs := getLast?_split h
+    simp only []
+    by_cases h1 : g = n
+    · subst h1; simp [newFile]
+    · have h2 : g ∈ ns.dropLast := by
+        rw [hs] at hg
+        simp only [List.mem_append, List.mem_singleton] at hg
+        rcases hg with hg | hg
+        · exact hg
+        · exact absurd hg h1
+      rw [upd_other _ _ _ _ h1, addEmpty_mem _ _ _ _ h2]; simp [newFile]
 
 theorem fileCells_addNew (cells : List Cell) (srcs : List Nat) (ns : List FileId)
     (F : FileId → File) (hne : ns ≠ []) (hnd : ns.Nodup) :
     fileCells (addNew F cells srcs ns) ns = cells := by
-  cases ns with
-  | nil => exact absurd rfl hne
-  | cons n ns =>
-    have hn := List.nodup_cons.1 hnd
-    simp only [fileCells, List.flatMap_cons, addNew]
-    rw [addEmpty_not_mem _ _ _ _ hn.1, upd_same]
-    have : (ns.flatMap fun f => (addEmpty (upd F n (newFile cells srcs)) srcs ns f).cells) = [] := by
-      rw [List.flatMap_eq_nil_iff]
-      intro f hf
-      rw [addEmpty_mem _ _ _ _ hf]; rfl
-    rw [this]; simp [newFile]
+  have hl : ns.getLast? = some (ns.getLast hne) := List.getLast?_eq_some_getLast hne
+  have hs := getLast?_split hl
+  have hnd' : (ns.dropLast ++ [ns.getLast hne]).Nodup := by rw [← hs]; exact hnd
+  have hnotin : ns.getLast hne ∉ ns.dropLast := by
+    intro hm
+    have := (List.nodup_append.1 hnd').2.2 (ns.getLast hne) hm (ns.getLast hne) (by simp)
+    exact this rfl
+  unfold addNew
+  rw [hl]
+  simp only []
+  conv => lhs; arg 2; rw [hs]
+  rw [fileCells_append]
+  have e1 : fileCells (upd (addEmpty F srcs ns.dropLast) (ns.getLast hne) (newFile cells srcs)) ns.dropLast = [] := by
+    simp only [fileCells]
+    rw [List.flatMap_eq_nil_iff]
+    intro f hf
+    have hfn : f ≠ ns.getLast hne := fun e => hnotin (e ▸ hf)
+    rw [upd_other _ _ _ _ hfn, addEmpty_mem _ _ _ _ hf]; rfl
+  rw [e1]
+  simp [fileCells, newFile]
 
 /-! ### contiguous blocks -/
 
